@@ -16,6 +16,8 @@ pub enum Ent {
     Mid6,
     Mid7,
     High,
+    /// words drawn from a small dictionary: repetitive, so that LZ77-only codecs (lz4) really compress it
+    Text,
 }
 
 impl Ent {
@@ -26,6 +28,7 @@ impl Ent {
             Ent::Mid6 => "mid6",
             Ent::Mid7 => "mid7",
             Ent::High => "high",
+            Ent::Text => "text",
         }
     }
     pub fn parse(s: &str) -> Ent {
@@ -34,10 +37,11 @@ impl Ent {
             "low4" => Ent::Low4,
             "mid6" => Ent::Mid6,
             "mid7" => Ent::Mid7,
+            "text" => Ent::Text,
             _ => Ent::High,
         }
     }
-    pub const ALL: [Ent; 5] = [Ent::Zero, Ent::Low4, Ent::Mid6, Ent::Mid7, Ent::High];
+    pub const ALL: [Ent; 6] = [Ent::Zero, Ent::Low4, Ent::Mid6, Ent::Mid7, Ent::High, Ent::Text];
 }
 
 #[derive(Clone, Copy, PartialEq, Eq, Debug)]
@@ -216,6 +220,20 @@ pub fn gen_bytes(seed: u64, call: u64, len: usize, ent: Ent) -> Vec<u8> {
     if ent == Ent::Zero {
         // entropy 0, but still content-specific: a single repeated byte derived from the call
         return vec![(mix(seed ^ mix(call)) & 0xff) as u8; len];
+    }
+    if ent == Ent::Text {
+        const WORDS: [&str; 16] = ["jubako ", "container ", "pack ", "cluster ", "entry ", "store ", "value ", "index ", "the ", "of ", "and ", "content ", "manifest ", "directory ", "offset ", "size\n"];
+        let base = mix(seed ^ mix(call.wrapping_mul(0x9E37_79B9_7F4A_7C15)));
+        let mut v = Vec::with_capacity(len + 16);
+        let mut i = 0u64;
+        // a per-content phrase repeated with small variations
+        while v.len() < len {
+            let w = mix(base ^ (i % 23).wrapping_mul(0xD6E8_FEB8_6659_FD93) ^ (i / 97));
+            v.extend_from_slice(WORDS[(w % 16) as usize].as_bytes());
+            i += 1;
+        }
+        v.truncate(len);
+        return v;
     }
     let mask: u64 = match ent {
         Ent::Low4 => 0x0f0f_0f0f_0f0f_0f0f,
